@@ -153,67 +153,7 @@ func runC05(r *Run) {
 	appl := r.applierFuncs(P)
 	windowFns := map[*ssa.Function]bool{}
 
-	// --- resolution side: window test W and its bound function G
-	var W *ssa.Function
-	wFrom, wUntil, wAnchor := -1, -1, -1
-	wCalls := 0
-	for _, role := range opRoles {
-		if role.ParseSD == "" {
-			continue
-		}
-		f := appl[role.Type]
-		if f == nil {
-			continue
-		}
-		ff := r.E.Facts(f, core.Ctx{})
-		found := false
-		for _, b := range f.Blocks {
-			for _, ins := range b.Instrs {
-				c, ok := ins.(*ssa.Call)
-				if !ok || len(core.CallArgs(c.Common())) < 3 {
-					continue
-				}
-				var ts []string
-				for _, a := range core.CallArgs(c.Common()) {
-					ts = append(ts, ff.TB.Of(a).String())
-				}
-				iFrom, iUntil, iAnchor := -1, -1, -1
-				for i, t := range ts {
-					switch {
-					case strings.HasSuffix(t, ").AnchorFrom") && strings.Contains(t, role.ParseSD+"("):
-						iFrom = i
-					case strings.HasSuffix(t, ").AnchorUntil") && strings.Contains(t, role.ParseSD+"("):
-						iUntil = i
-					case strings.HasSuffix(t, ".TransactionTime") && strings.HasPrefix(t, "$"):
-						iAnchor = i
-					}
-				}
-				if iFrom < 0 || iUntil < 0 || iAnchor < 0 {
-					continue
-				}
-				_, callee, _ := r.P.CalleeKey(c.Common())
-				if callee == nil {
-					continue
-				}
-				found = true
-				wCalls++
-				if W == nil {
-					W = callee
-					wFrom, wUntil, wAnchor = iFrom, iUntil, iAnchor
-					r.checkWindowTest(P, callee, iFrom, iUntil, iAnchor, windowFns)
-				} else if W == callee && (iFrom != wFrom || iUntil != wUntil || iAnchor != wAnchor) {
-					r.R.Bad(P+".window.sibling.roles."+role.Type, "sibling agreement: every applier passes (AnchorFrom, AnchorUntil, TransactionTime) to the window test in the same argument positions", core.FuncName(f), r.P.Pos(c.Pos()),
-						"with from and until exchanged the window of this operation type is inverted", fmt.Sprintf("argument positions (from %d, until %d, anchor %d) differ from the first site (from %d, until %d, anchor %d)", iFrom, iUntil, iAnchor, wFrom, wUntil, wAnchor))
-				} else if W != callee {
-					r.R.Bad(P+".window.sibling.resolution", "sibling agreement: all operation types use the same window test", core.FuncName(f), r.P.Pos(c.Pos()),
-						"different window rules per type contradict the single rule of the statement", "window test differs: "+core.FuncName(callee)+" vs "+core.FuncName(W))
-				}
-			}
-		}
-		r.R.Check(found, P+".window.tested."+role.Type, "E13: the applier hands (signedData.AnchorFrom, signedData.AnchorUntil, anchoredOp.TransactionTime) to the window test",
-			core.FuncName(f), r.where(f), "without the test the operation takes effect at any anchoring time", "window test called with the signed window and the transaction time", "no call receives (AnchorFrom, AnchorUntil, TransactionTime)")
-	}
-	r.R.Floor(P+".window.tested.floor", "instance floor", wCalls, 3, "window-test call sites in the appliers")
+	r.checkApplierWindow(P, appl, windowFns)
 
 	// --- intake side
 	for _, role := range opRoles {
@@ -580,4 +520,71 @@ func (r *Run) checkWindowTestNumeric(P string, w *ssa.Function, from, until, anc
 	r.R.Check(good && otherParam == "", P+".window.bound@applier", "E3 role: the default window is bounded by MaxOperationTimeDelta (inline form, decided together with window.nf)", core.FuncName(w), r.where(w),
 		"if the default window is bounded by another parameter, operations take effect outside their signed anchoring window", "from + Protocol.MaxOperationTimeDelta", "the inline bound reads Protocol."+otherParam)
 	return true
+}
+
+// checkApplierWindow: every applier hands (signedData.AnchorFrom, signedData.AnchorUntil, anchoredOp.TransactionTime) to
+// one window test, whose normal form is evaluated (shared by C05 and C03: "an update anchored outside its window
+// advances the update commitment and leaves the document unchanged" presupposes the inclusive window of the statement).
+func (r *Run) checkApplierWindow(P string, appl map[string]*ssa.Function, windowFns map[*ssa.Function]bool) {
+	// --- resolution side: window test W and its bound function G
+	var W *ssa.Function
+	wFrom, wUntil, wAnchor := -1, -1, -1
+	wCalls := 0
+	for _, role := range opRoles {
+		if role.ParseSD == "" {
+			continue
+		}
+		f := appl[role.Type]
+		if f == nil {
+			continue
+		}
+		ff := r.E.Facts(f, core.Ctx{})
+		found := false
+		for _, b := range f.Blocks {
+			for _, ins := range b.Instrs {
+				c, ok := ins.(*ssa.Call)
+				if !ok || len(core.CallArgs(c.Common())) < 3 {
+					continue
+				}
+				var ts []string
+				for _, a := range core.CallArgs(c.Common()) {
+					ts = append(ts, ff.TB.Of(a).String())
+				}
+				iFrom, iUntil, iAnchor := -1, -1, -1
+				for i, t := range ts {
+					switch {
+					case strings.HasSuffix(t, ").AnchorFrom") && strings.Contains(t, role.ParseSD+"("):
+						iFrom = i
+					case strings.HasSuffix(t, ").AnchorUntil") && strings.Contains(t, role.ParseSD+"("):
+						iUntil = i
+					case strings.HasSuffix(t, ".TransactionTime") && strings.HasPrefix(t, "$"):
+						iAnchor = i
+					}
+				}
+				if iFrom < 0 || iUntil < 0 || iAnchor < 0 {
+					continue
+				}
+				_, callee, _ := r.P.CalleeKey(c.Common())
+				if callee == nil {
+					continue
+				}
+				found = true
+				wCalls++
+				if W == nil {
+					W = callee
+					wFrom, wUntil, wAnchor = iFrom, iUntil, iAnchor
+					r.checkWindowTest(P, callee, iFrom, iUntil, iAnchor, windowFns)
+				} else if W == callee && (iFrom != wFrom || iUntil != wUntil || iAnchor != wAnchor) {
+					r.R.Bad(P+".window.sibling.roles."+role.Type, "sibling agreement: every applier passes (AnchorFrom, AnchorUntil, TransactionTime) to the window test in the same argument positions", core.FuncName(f), r.P.Pos(c.Pos()),
+						"with from and until exchanged the window of this operation type is inverted", fmt.Sprintf("argument positions (from %d, until %d, anchor %d) differ from the first site (from %d, until %d, anchor %d)", iFrom, iUntil, iAnchor, wFrom, wUntil, wAnchor))
+				} else if W != callee {
+					r.R.Bad(P+".window.sibling.resolution", "sibling agreement: all operation types use the same window test", core.FuncName(f), r.P.Pos(c.Pos()),
+						"different window rules per type contradict the single rule of the statement", "window test differs: "+core.FuncName(callee)+" vs "+core.FuncName(W))
+				}
+			}
+		}
+		r.R.Check(found, P+".window.tested."+role.Type, "E13: the applier hands (signedData.AnchorFrom, signedData.AnchorUntil, anchoredOp.TransactionTime) to the window test",
+			core.FuncName(f), r.where(f), "without the test the operation takes effect at any anchoring time", "window test called with the signed window and the transaction time", "no call receives (AnchorFrom, AnchorUntil, TransactionTime)")
+	}
+	r.R.Floor(P+".window.tested.floor", "instance floor", wCalls, 3, "window-test call sites in the appliers")
 }
